@@ -217,6 +217,12 @@ def run_case(acc, audit, wd, idx, sch, rng, arrangement, want_cpp, seed):
                     os.makedirs(decoy_dir)
                 with open(os.path.join(decoy_dir, fn), 'w') as f:
                     f.write(file_text(sch, part, incs, pre).replace('u16 ', 'u32 ').replace('u8 ', 'u64 ').replace('i16 ', 'i64 '))
+                # the working directory of the run holds same-named files as well (it is no include directory)
+                cwd_decoy = os.path.join(split_dir, 'src', 'cwd_decoy')
+                if not os.path.isdir(cwd_decoy):
+                    os.makedirs(cwd_decoy)
+                with open(os.path.join(cwd_decoy, fn), 'w') as f:
+                    f.write(file_text(sch, part, incs, pre).replace('u16 ', 'u64 ').replace('u8 ', 'u32 ').replace('i16 ', 'i32 '))
     args = ['--quiet', '--python_out', out2]
     if want_cpp:
         args += ['--cpp_out', out2, '--cpp_full_out', out2]
@@ -234,6 +240,10 @@ def run_case(acc, audit, wd, idx, sch, rng, arrangement, want_cpp, seed):
             os.chdir(root)
             inputs = [os.path.relpath(paths[fn], root) for fn in order]
             args = [os.path.relpath(a, root) if a.startswith(root) else a for a in args]
+        elif arrangement == 'I-order' and os.path.isdir(os.path.join(split_dir, 'src', 'cwd_decoy')):
+            os.chdir(os.path.join(split_dir, 'src', 'cwd_decoy'))
+            inputs = [paths[fn] for fn in order]
+            acc.count('runs_from_a_directory_holding_same_named_files')
         elif arrangement == 'abs-I-rel-inputs':
             # the same file is reached under two spellings: relative (next to a relative input) and absolute (through -I)
             os.chdir(root)
@@ -361,7 +371,18 @@ def run_negative(acc, wd, idx, sch, rng):
                 text = '#include "%s"\n' % victim_fn + text
             with open(os.path.join(d, fn), 'w') as f:
                 f.write(text)
-        exc, _, _n = pc.run_main(['--quiet', '--python_out', os.path.join(root, 'out'), os.path.join(d, victim_fn)])
+        cwd0 = os.getcwd()
+        try:
+            if kind == 'missing':
+                # the working directory holds a file of the missing name: it is no include directory
+                here = os.path.join(root, 'cwd_with_namesake')
+                os.makedirs(here)
+                with open(os.path.join(here, gone), 'w') as f:
+                    f.write([file_text(sch, part, incs) for fn, part, incs in files if fn == gone][0])
+                os.chdir(here)
+            exc, _, _n = pc.run_main(['--quiet', '--python_out', os.path.join(root, 'out'), os.path.join(d, victim_fn)])
+        finally:
+            os.chdir(cwd0)
         acc.ev()
         acc.count('negative:' + kind)
         named = gone if kind == 'missing' else victim_fn
